@@ -405,3 +405,185 @@ func safe(v reflect.Value, depth int) any {
 	}
 	return v.String()
 }
+
+// Clone deep-copies v (pointers, slices, maps, interfaces) so that two
+// decoders can be given identical but independent targets.
+func Clone(v reflect.Value) reflect.Value {
+	return clone(v, map[unsafe.Pointer]reflect.Value{})
+}
+
+func clone(v reflect.Value, seen map[unsafe.Pointer]reflect.Value) reflect.Value {
+	if !v.IsValid() {
+		return v
+	}
+	out := reflect.New(v.Type()).Elem()
+	switch v.Kind() {
+	case reflect.Ptr:
+		if v.IsNil() {
+			return out
+		}
+		if c, ok := seen[v.UnsafePointer()]; ok {
+			return c
+		}
+		p := reflect.New(v.Type().Elem())
+		seen[v.UnsafePointer()] = p
+		p.Elem().Set(clone(v.Elem(), seen))
+		return p
+	case reflect.Interface:
+		if v.IsNil() {
+			return out
+		}
+		out.Set(clone(v.Elem(), seen))
+	case reflect.Slice:
+		if v.IsNil() {
+			return out
+		}
+		s := reflect.MakeSlice(v.Type(), v.Len(), v.Cap())
+		for i := 0; i < v.Len(); i++ {
+			s.Index(i).Set(clone(v.Index(i), seen))
+		}
+		return s
+	case reflect.Array:
+		for i := 0; i < v.Len(); i++ {
+			out.Index(i).Set(clone(v.Index(i), seen))
+		}
+	case reflect.Map:
+		if v.IsNil() {
+			return out
+		}
+		m := reflect.MakeMapWithSize(v.Type(), v.Len())
+		it := v.MapRange()
+		for it.Next() {
+			m.SetMapIndex(clone(it.Key(), seen), clone(it.Value(), seen))
+		}
+		return m
+	case reflect.Struct:
+		if v.Type() == T[time.Time]() {
+			out.Set(v)
+			return out
+		}
+		for i := 0; i < v.NumField(); i++ {
+			if v.Type().Field(i).PkgPath != "" {
+				continue // unexported: left zero in both copies
+			}
+			out.Field(i).Set(clone(v.Field(i), seen))
+		}
+	default:
+		out.Set(v)
+	}
+	return out
+}
+
+// DeepEq is reflect.DeepEqual with time.Time compared by instant and zone
+// offset (not by location pointer) and NaN equal to NaN; it returns the path of
+// the first difference.
+func DeepEq(a, b reflect.Value) (bool, string) { return deepEq(a, b, "", 0) }
+
+// LastPtrDiff is the pointer type at the most recent "nil pointer" difference.
+var LastPtrDiff reflect.Type
+
+func deepEq(a, b reflect.Value, path string, depth int) (bool, string) {
+	if !a.IsValid() || !b.IsValid() {
+		if a.IsValid() == b.IsValid() {
+			return true, ""
+		}
+		return false, path + ": validity"
+	}
+	if a.Type() != b.Type() {
+		return false, fmt.Sprintf("%s: dynamic type %s != %s", path, a.Type(), b.Type())
+	}
+	if depth > 60 {
+		return true, ""
+	}
+	switch a.Kind() {
+	case reflect.Ptr:
+		if a.IsNil() != b.IsNil() {
+			LastPtrDiff = a.Type()
+			return false, fmt.Sprintf("%s: nil pointer %v != %v", path, a.IsNil(), b.IsNil())
+		}
+		if a.IsNil() {
+			return true, ""
+		}
+		return deepEq(a.Elem(), b.Elem(), path+"*", depth+1)
+	case reflect.Interface:
+		if a.IsNil() != b.IsNil() {
+			return false, fmt.Sprintf("%s: nil interface %v != %v", path, a.IsNil(), b.IsNil())
+		}
+		if a.IsNil() {
+			return true, ""
+		}
+		return deepEq(a.Elem(), b.Elem(), path+"(iface)", depth+1)
+	case reflect.Slice:
+		if a.IsNil() != b.IsNil() {
+			return false, fmt.Sprintf("%s: nil slice %v != %v", path, a.IsNil(), b.IsNil())
+		}
+		fallthrough
+	case reflect.Array:
+		if a.Len() != b.Len() {
+			return false, fmt.Sprintf("%s: len %d != %d", path, a.Len(), b.Len())
+		}
+		for i := 0; i < a.Len(); i++ {
+			if ok, why := deepEq(a.Index(i), b.Index(i), fmt.Sprintf("%s[%d]", path, i), depth+1); !ok {
+				return false, why
+			}
+		}
+	case reflect.Map:
+		if a.IsNil() != b.IsNil() {
+			return false, fmt.Sprintf("%s: nil map %v != %v", path, a.IsNil(), b.IsNil())
+		}
+		if a.Len() != b.Len() {
+			return false, fmt.Sprintf("%s: map len %d != %d", path, a.Len(), b.Len())
+		}
+		it := a.MapRange()
+		for it.Next() {
+			bv := b.MapIndex(it.Key())
+			if !bv.IsValid() {
+				return false, fmt.Sprintf("%s: key %v missing", path, it.Key())
+			}
+			if ok, why := deepEq(it.Value(), bv, fmt.Sprintf("%s[%v]", path, it.Key()), depth+1); !ok {
+				return false, why
+			}
+		}
+	case reflect.Struct:
+		if a.Type() == T[time.Time]() && a.CanInterface() {
+			ta, tb := a.Interface().(time.Time), b.Interface().(time.Time)
+			_, oa := ta.Zone()
+			_, ob := tb.Zone()
+			if !ta.Equal(tb) || oa != ob {
+				return false, fmt.Sprintf("%s: time %v != %v", path, ta, tb)
+			}
+			return true, ""
+		}
+		for i := 0; i < a.NumField(); i++ {
+			if a.Type().Field(i).PkgPath != "" && !a.Type().Field(i).Anonymous {
+				continue
+			}
+			if ok, why := deepEq(a.Field(i), b.Field(i), path+"."+a.Type().Field(i).Name, depth+1); !ok {
+				return false, why
+			}
+		}
+	case reflect.Float32, reflect.Float64:
+		if af, bf := a.Float(), b.Float(); af != bf && !(af != af && bf != bf) {
+			return false, fmt.Sprintf("%s: %v != %v", path, af, bf)
+		} else if math.Signbit(af) != math.Signbit(bf) {
+			return false, fmt.Sprintf("%s: sign of zero differs", path)
+		}
+	case reflect.Bool:
+		if a.Bool() != b.Bool() {
+			return false, fmt.Sprintf("%s: %v != %v", path, a.Bool(), b.Bool())
+		}
+	case reflect.String:
+		if a.String() != b.String() {
+			return false, fmt.Sprintf("%s: %q != %q", path, a.String(), b.String())
+		}
+	case reflect.Int, reflect.Int8, reflect.Int16, reflect.Int32, reflect.Int64:
+		if a.Int() != b.Int() {
+			return false, fmt.Sprintf("%s: %d != %d", path, a.Int(), b.Int())
+		}
+	case reflect.Uint, reflect.Uint8, reflect.Uint16, reflect.Uint32, reflect.Uint64, reflect.Uintptr:
+		if a.Uint() != b.Uint() {
+			return false, fmt.Sprintf("%s: %d != %d", path, a.Uint(), b.Uint())
+		}
+	}
+	return true, ""
+}
